@@ -187,6 +187,10 @@ CanonZ(x) == IF x.t \in {"jnum", "f32"} /\ FClass(x.p) = 2 THEN [x EXCEPT !.p[2]
 (* zero inside a JSON number / vector)                                                                *)
 SameKeyAllowed(x, y) == Canon(x) = Canon(y) \/ CanonZ(x) = CanonZ(y)
 
+(* first bytes decode_key understands (every other first byte must be rejected): the prefixes of the *)
+(* header table except the reserved big-integer prefixes 0x11 / 0x17, the custom range and MAX_KEY    *)
+Decodable == {1, 2, 3, 16, 18, 19, 20, 21, 22, 24, 25, 32, 33} \cup 48..52 \cup 64..66 \cup 80..86 \cup 96..101 \cup {112}
+
 (* ------------------------------------------------------------------------ *)
 (* composite keys: the columns' keys are concatenated; order is column by column *)
 TupCmp(a, b)  == SeqCmp(a, b, FALSE)
